@@ -37,7 +37,7 @@ def box_history(rng, kind, nvals, nops, maxlen=24):
         elif r < 0.85:
             if n: L.append("popat 1 %d" % rng.randrange(0, n)); n -= 1
         elif r < 0.95:
-            m = rng.choice([0, n // 2, max(n - 1, 0)])
+            m = rng.choice([0, n // 2, max(n - 1, 0)] + ([n + 1, n + 2] if kind == "Array" else []))      # (an Array may also trim spare room: len < m < capacity)
             L.append("resize 1 %d" % m); n = min(n, m) if m else 0
         else:
             L.append("del 1")
